@@ -253,6 +253,10 @@ class Check(PropertyCheck):
         fails += self.oracle_sound(self.near_boxes(self.scale(1500, 25000) * boost))
         return fails
 
+    def oracle_on_texts(self, texts):
+        ok = set("-|+.,'`~:! \n") | set("abcdefghijklmnopqrstuvwxyzABCDEFGHIJKLMNOPQRSTUVWXYZ0123456789")
+        return self.oracle_sound([t for t in texts if set(t) <= ok])
+
     def replay_case(self, case):
         if case.get("kind") == "complete":
             return []
